@@ -21,13 +21,21 @@ func init() {
 			"bounds, see bound_completed) is written as Lisp source with literal sequences, evaluated through ReadString+Eval in a fresh " +
 			"scope, the result is rendered by a Go type switch and compared with a reference implementation written from the language " +
 			"definition on Go slices; a case is non-trivial when the sequence arguments are non-empty and at least one keyword argument " +
-			"is given, or (functions without keywords) when they hold at least two elements",
+			"is given, or (functions without keywords) when they hold at least two elements. Functions called for effect (mapc mapl, map " +
+			"with result type nil, map-into, pushnew, nreverse/copy-seq/replace on one object) are wrapped in a let that also returns " +
+			"what they changed (the recorded argument lists, the place, the argument afterwards, the elements behind a fill pointer). " +
+			"elt and subseq with an index outside the sequence must signal (any condition; a Go runtime fault does not count)",
 		Assumptions: []string{
 			"elements are symbols, characters and (symbol . id) pairs, on which slip's documented default test equal agrees with eql",
 			"harness-defined callbacks c14-lt (strict order on the alphabet) and c14-pair (reducing function) are trusted",
 			"functions slip does not define (find-if-not, position-if-not, count-if-not, remove-if-not, delete-if-not, substitute-if-not, " +
-				"member-if-not, rassoc-if-not) and :test-not (documented by no sequence function) are not demanded; the named test is " +
-				"equal, not eql (slip's eql raises a type-error on two different symbols, a defect of eql itself, outside this property)",
+				"nsubstitute-if-not, member-if-not, rassoc-if-not: fboundp is nil for each) are not demanded; :test-not is documented by " +
+				"exactly one function of pkg/cl, pushnew, and enumerated there (everywhere else it is not demanded); the named test is " +
+				"equal, not eql",
+			"pushnew does not document its default test: for an item that is equal but not eql to an element (a cons) both the " +
+				"language's answer (pushed) and slip's documented default elsewhere (equal: not pushed) are accepted; adjoin documents equal",
+			"map-into documents lists only: with a vector as result or source a rejection is accepted as well as the defined value; " +
+				"make-sequence without :initial-element: only the length and the type of the result are looked at",
 			"only in-range bounding indices and sorted merge inputs are enumerated",
 		},
 		Enumerate: enumerate,
@@ -36,7 +44,17 @@ func init() {
 			"combo:from-end+count+bounds", "combo:key+test", "combo:key+test-on-string", "seq:list", "seq:vector", "seq:string", "seq:nil",
 			"stable-sort:equal-keys", "merge:equal-keys", "fam:item", "fam:if", "fam:substitute", "fam:substitute-if", "fam:duplicates",
 			"fam:reverse", "fam:two-sequence", "fam:subseq", "fam:fill", "fam:sort", "fam:merge", "fam:set", "fam:quantifier", "fam:map",
-			"fam:reduce", "fam:concatenate", "fam:map-direct", "map-direct:judged"},
+			"fam:reduce", "fam:concatenate", "fam:map-direct", "map-direct:judged",
+			// sixth round
+			"fam:list-mapping", "fam:map-into", "fam:adjoin", "fam:replace-same-object", "fam:make", "fam:elt",
+			"list-mapping:mapc", "list-mapping:mapl", "list-mapping:maplist", "list-mapping:mapcan", "list-mapping:mapcon",
+			"list-mapping:unequal-lengths", "list-mapping:nil-result-spliced", "map:result-type-nil-calls-observed",
+			"arity:3-sequences", "arity:3-sequences-of-unequal-length", "arity:list+vector+string",
+			"set-exclusive-or", "set-exclusive-or:key", "set-exclusive-or:duplicates", "adjoin:adjoin", "adjoin:pushnew",
+			"adjoin:test-on-conses", "adjoin:default-test-on-boxed-fixnums", "kw:test-not", "replace-same-object:overlap-start1>start2", "replace-same-object:overlap-start1<start2",
+			"out-of-range:error-demanded", "fill-pointer:reverse", "fill-pointer:nreverse", "fill-pointer:quantifier",
+			"fill-pointer:subseq", "fill-pointer:elt", "make:make-sequence", "make:copy-seq",
+			"seq:vector-with-fill-pointer"},
 		Bound:    bound,
 		Selftest: selftest,
 	})
@@ -70,6 +88,14 @@ type cfg struct {
 	twoTests []string
 	longLo   int // stable-sort long inputs
 	longHi   int
+	// sixth round
+	lmL1, lmL2, lmL3 int    // list-mapping functions over one, two, three lists
+	ab3              string // alphabet of the three-sequence grids (strings: sab3)
+	sab3             string
+	seq3L            int // map / every.. over three sequences of mixed kinds
+	adjL             int // adjoin / pushnew
+	selfL            int // replace with one object as target and source
+	intoL            int // map-into: result and source lengths
 }
 
 func config(tier string) cfg {
@@ -77,12 +103,14 @@ func config(tier string) cfg {
 		return cfg{itemL: 5, letters: "abc", sletters: "bBc", items: "b", edgeL: 4, assocL: 5,
 			twoL1: 3, twoL2: 4, twoAB: "ab", twoSAB: "aA", subL: 6, sortL: 8, sortSL: 6, sortAB: "abc", sortSAB: "aAbB",
 			mergeL: 4, setL: 4, quantL1: 6, quantL2: 4, mapL: 4, reduceL: 5, concatN: 3, concatL: 2,
-			twoTests: []string{"", "equal", "lam"}, longLo: 13, longHi: 15}
+			twoTests: []string{"", "equal", "lam"}, longLo: 13, longHi: 15,
+			lmL1: 5, lmL2: 4, lmL3: 4, ab3: "ab", sab3: "bB", seq3L: 3, adjL: 5, selfL: 5, intoL: 4}
 	}
 	return cfg{itemL: 4, letters: "abc", sletters: "bBc", items: "b", edgeL: 3, assocL: 4,
 		twoL1: 2, twoL2: 3, twoAB: "ab", twoSAB: "aAb", subL: 4, sortL: 6, sortSL: 5, sortAB: "abc", sortSAB: "aAb",
 		mergeL: 3, setL: 3, quantL1: 4, quantL2: 3, mapL: 3, reduceL: 4, concatN: 2, concatL: 2,
-		twoTests: []string{"", "lam"}, longLo: 13, longHi: 13}
+		twoTests: []string{"", "lam"}, longLo: 13, longHi: 13,
+		lmL1: 4, lmL2: 3, lmL3: 3, ab3: "ab", sab3: "bB", seq3L: 2, adjL: 4, selfL: 4, intoL: 3}
 }
 
 func bound(tier string) string {
@@ -109,11 +137,25 @@ func bound(tier string) string {
 		"letters of length %d..%d (beyond the insertion-sort threshold of library sorts); merge of every pair of sorted inputs 0..%d "+
 		"x result type x predicate x :key; union/intersection/set-difference/subsetp (+ n-variants) on every pair of lists 0..%d x :key "+
 		"x :test; every/some/notany/notevery on one sequence 0..%d and two sequences 0..%d; map/mapcar 0..%d; reduce 0..%d x bounds x "+
-		":key x :from-end x :initial-value; concatenate of up to %d sequences 0..%d x result type%s. Not enumerated (cut for time): the "+
-		"statement's length 8 / 4-symbol alphabet for every function; out-of-range bounds; :test-not and the -if-not functions (not "+
-		"defined by slip)",
+		":key x :from-end x :initial-value; concatenate of up to %d sequences 0..%d x result type%s. Sixth round: mapc mapl maplist mapcan "+
+		"mapcon over every one list 0..%d and pair of lists 0..%d over %q and every triple of lists 0..%d over %q (function arguments "+
+		"that return the arguments, splice a list per call, return nil for one letter); mapcar over the same triples; map (result "+
+		"types nil with the calls recorded, list, vector, string) and every/some/notany/notevery over every triple of sequences 0..%d "+
+		"for each of the 27 mixes of list, vector and string; map-into: result list 0..%d x zero, one or two source lists 0..%d (and "+
+		"vectors); adjoin and pushnew: every list 0..%d x items a b c x elements symbols / fixnums above 1000 / conses / :key car x :test absent, equal, "+
+		"an equivalence lambda, an order lambda, and for pushnew :test-not equal and :test-not of the order lambda; set-exclusive-or "+
+		"and nset-exclusive-or on every pair of lists 0..%d (duplicates included) x :key x :test (absent, equal, equivalence lambda, "+
+		"order lambda); replace with ONE object as target and source: every list, vector and string 0..%d x every pair of in-range "+
+		"regions; elt at every index -1..length+1 and subseq with a start or end outside the sequence or end < start on 0..%d (an "+
+		"error is demanded); copy-seq (a store into the copy must not show in the original) and make-sequence 0..%d x list/vector/string "+
+		"x :initial-element; reverse, nreverse, copy-seq, every/some/notany/notevery, elt and subseq on vectors with a fill pointer (two "+
+		"elements behind it, which must stay invisible and untouched) 0..%d; merge also "+
+		"for vector/string and string/vector. Not enumerated (cut for time): the statement's length 8 / 4-symbol alphabet for every "+
+		"function; out-of-range bounds other than elt/subseq; the other families on fill-pointer vectors; the -if-not functions (not "+
+		"defined by slip) and :test-not outside pushnew (documented nowhere else)",
 		c.itemL, c.letters, c.sletters, c.edgeL, c.assocL, c.twoL1, c.twoL2, c.twoAB, c.twoSAB, twoTests, c.subL, c.sortL, c.sortSL,
-		c.longLo, c.longHi, c.mergeL, c.setL, c.quantL1, c.quantL2, c.mapL, c.reduceL, c.concatN, c.concatL, extra)
+		c.longLo, c.longHi, c.mergeL, c.setL, c.quantL1, c.quantL2, c.mapL, c.reduceL, c.concatN, c.concatL, extra,
+		c.lmL1, c.lmL2, c.letters, c.lmL3, c.ab3, c.seq3L, c.intoL, c.intoL, c.adjL, c.setL, c.selfL, c.subL, c.subL, c.subL)
 }
 
 // wordsOfLen: every word over letters of exactly length n.
@@ -224,6 +266,10 @@ func hasCountKw(fn string) bool {
 func enumerate(tier string, emit func(string)) {
 	if os.Getenv("C14_ONLY") == "mapdirect" { // development aid
 		enumMapDirect(tier, emit)
+		return
+	}
+	if os.Getenv("C14_ONLY") == "round6" { // development aid: only the families added in the sixth round
+		enumerateRound6(config(tier), func(string) bool { return true }, func(c *call) { emit(c.spec()) })
 		return
 	}
 	enumerateFn(tier, "", emit)
@@ -715,12 +761,277 @@ func enumerateFn(tier, only string, emit func(string)) {
 		}
 	}
 
+	enumerateRound6(cf, want, out)
+
 	// ---- thorough: the item families once more over the 4-letter alphabets and three items
 	if tier == engine.Thorough {
 		for _, fn := range allItem {
 			if want(fn) {
 				itemGrid(fn, "abcd", "abBc", "abc", 4)
 			}
+		}
+	}
+}
+
+// seqTuples calls f with every tuple of len(typs) sequences (every word of length 0..maxL over the alphabet, an
+// empty list written both '() and nil), simplest first in the last position.
+func seqTuples(typs string, ab, sab string, maxL int, f func(typs string, seqs []string)) {
+	chars := strings.ContainsRune(typs, 'S')
+	var rec func(i int, ts string, seqs []string)
+	rec = func(i int, ts string, seqs []string) {
+		if i == len(typs) {
+			f(ts, append([]string(nil), seqs...))
+			return
+		}
+		letters := ab
+		if chars {
+			letters = sab
+		}
+		for _, q := range allSeqs(letters, maxL) {
+			for _, t := range typVariants(typs[i:i+1], q) {
+				rec(i+1, ts+string(t), append(seqs, q))
+			}
+		}
+	}
+	rec(0, "", nil)
+}
+
+// enumerateRound6: the functions and argument shapes added in the sixth round (see bound()).
+func enumerateRound6(cf cfg, want func(string) bool, out func(*call)) {
+	// ---- mapc mapcan mapcon mapl maplist over one, two and three lists of (un)equal length
+	lmPreds := map[string][][]string{ // function -> arity-1 functions, n-ary functions
+		"mapc":    {{"acc"}, {"acc"}},
+		"mapl":    {{"acc"}, {"acc"}},
+		"maplist": {{"self", "tuple"}, {"tuple"}},
+		"mapcan":  {{"dup", "filt", "tuple"}, {"tuple", "filt"}},
+		"mapcon":  {{"copy", "filt", "tuple"}, {"tuple", "filt"}},
+	}
+	for _, fn := range []string{"mapc", "mapl", "maplist", "mapcan", "mapcon"} {
+		if !want(fn) {
+			continue
+		}
+		for arity, maxL := range []int{cf.lmL1, cf.lmL2, cf.lmL3} {
+			ab := cf.letters
+			if arity == 2 {
+				ab = cf.ab3
+			}
+			preds := lmPreds[fn][min(arity, 1)]
+			seqTuples(strings.Repeat("L", arity+1), ab, ab, maxL, func(typs string, seqs []string) {
+				for _, pred := range preds {
+					out(&call{fn: fn, typs: typs, seqs: seqs, pred: pred})
+				}
+			})
+		}
+	}
+	// ---- mapcar over three lists
+	if want("mapcar") {
+		seqTuples("LLL", cf.ab3, cf.ab3, cf.lmL3, func(typs string, seqs []string) {
+			out(&call{fn: "mapcar", typs: typs, seqs: seqs, pred: "tuple"})
+		})
+	}
+	// ---- map-into: result list x zero, one, two source lists; vectors (not documented: a rejection is accepted)
+	if want("map-into") {
+		for _, rt := range "LV" {
+			for n := 0; n <= cf.intoL; n++ {
+				r := strings.Repeat("r", n)
+				for _, t0 := range typVariants(string(rt), r) {
+					out(&call{fn: "map-into", typs: string(t0), seqs: []string{r}, pred: "tuple"})
+					for _, st := range []string{"L", "LL", "V", "LV"} {
+						if rt == 'V' && st != "L" && st != "V" {
+							continue
+						}
+						seqTuples(st, cf.ab3, cf.ab3, cf.intoL, func(typs string, seqs []string) {
+							out(&call{fn: "map-into", typs: string(t0) + typs, seqs: append([]string{r}, seqs...), pred: "tuple"})
+						})
+					}
+				}
+			}
+		}
+	}
+	// ---- map and the quantifiers over three sequences of every mix of list, vector and string
+	var mixes []string
+	for _, a := range "LVS" {
+		for _, b := range "LVS" {
+			for _, c := range "LVS" {
+				mixes = append(mixes, string(a)+string(b)+string(c))
+			}
+		}
+	}
+	if want("map") {
+		for _, mix := range mixes {
+			seqTuples(mix, cf.ab3, cf.sab3, cf.seq3L, func(typs string, seqs []string) {
+				out(&call{fn: "map", typs: typs, seqs: seqs, pred: "acc", rtype: "nil"})
+				out(&call{fn: "map", typs: typs, seqs: seqs, pred: "tuple", rtype: "list"})
+				out(&call{fn: "map", typs: typs, seqs: seqs, pred: "tuple", rtype: "vector"})
+				if strings.ContainsRune(typs, 'S') {
+					out(&call{fn: "map", typs: typs, seqs: seqs, pred: "last", rtype: "string"})
+				}
+			})
+		}
+		// result type nil with one and two sequences: the calls are observed
+		for _, mix := range []string{"L", "V", "S", "LL", "LV", "VL", "VV", "SL", "VS", "SS"} {
+			seqTuples(mix, cf.letters, cf.sletters, cf.mapL, func(typs string, seqs []string) {
+				out(&call{fn: "map", typs: typs, seqs: seqs, pred: "acc", rtype: "nil"})
+			})
+		}
+	}
+	for _, fn := range quantFns {
+		if !want(fn) {
+			continue
+		}
+		for _, mix := range mixes {
+			seqTuples(mix, cf.ab3, cf.sab3, cf.seq3L, func(typs string, seqs []string) {
+				for _, pred := range []string{"eq3", "lt13"} {
+					out(&call{fn: fn, typs: typs, seqs: seqs, pred: pred})
+				}
+			})
+		}
+	}
+	// ---- adjoin / pushnew: symbols, whole conses (equality tests only) and :key car, every documented test
+	for _, fn := range []string{"adjoin", "pushnew"} {
+		if !want(fn) {
+			continue
+		}
+		tests := []string{"", "equal", "eqv", "lam"}
+		if fn == "pushnew" {
+			tests = append(tests, "not", "notlam") // pushnew documents :test-not
+		}
+		for _, seq := range allSeqs(cf.letters, cf.adjL) {
+			for _, t := range typVariants("L", seq) {
+				for _, item := range "abc" {
+					for _, mode := range []string{"", "nums", "pairs", "key"} {
+						for _, test := range tests {
+							c := &call{fn: fn, typs: string(t), seqs: []string{seq}, item: string(item), test: test}
+							switch mode {
+							case "pairs", "nums":
+								c.pred = mode
+							case "key":
+								c.key = true
+							}
+							if c.valid() {
+								out(c)
+							}
+						}
+					}
+				}
+			}
+		}
+	}
+	// ---- set-exclusive-or / nset-exclusive-or
+	for _, fn := range []string{"set-exclusive-or", "nset-exclusive-or"} {
+		if !want(fn) {
+			continue
+		}
+		seqTuples("LL", cf.letters, cf.letters, cf.setL, func(typs string, seqs []string) {
+			for _, key := range []bool{false, true} {
+				for _, test := range []string{"", "equal", "eqv", "lam"} {
+					out(&call{fn: fn, typs: typs, seqs: seqs, key: key, test: test})
+				}
+			}
+		})
+	}
+	// ---- replace with one object as target and source, every pair of in-range regions
+	if want("replace-self") {
+		for _, typ := range "LVS" {
+			ab := cf.letters
+			if typ == 'S' {
+				ab = cf.sletters
+			}
+			for _, seq := range allSeqs(ab, cf.selfL) {
+				for _, b1 := range pairBounds(len(seq)) {
+					for _, b2 := range pairBounds(len(seq)) {
+						c := &call{fn: "replace-self", typs: string(typ), seqs: []string{seq}}
+						c.setBounds(b1)
+						c.setBounds2(b2)
+						out(c)
+					}
+				}
+			}
+		}
+	}
+	// ---- elt (every index from -1 to length + 1), subseq with indices outside the sequence, copy-seq,
+	// make-sequence, reverse / nreverse / copy-seq of vectors with a fill pointer
+	for _, typ := range "LVSF" {
+		ab := cf.letters
+		if typ == 'S' {
+			ab = cf.sletters
+		}
+		for _, seq := range allSeqs(ab, cf.subL) {
+			n := len(seq)
+			for _, t := range typVariants(string(typ), seq) {
+				if want("copy-seq") {
+					out(&call{fn: "copy-seq", typs: string(t), seqs: []string{seq}})
+				}
+				if typ == 'F' {
+					for _, fn := range []string{"reverse", "nreverse"} {
+						if want(fn) {
+							out(&call{fn: fn, typs: string(t), seqs: []string{seq}})
+						}
+					}
+					// every / some / notany / notevery must not look behind the fill pointer; subseq inside the active part
+					for _, fn := range quantFns {
+						if want(fn) {
+							for _, pred := range []string{"eq", "gt", "hid"} {
+								out(&call{fn: fn, typs: string(t), seqs: []string{seq}, pred: pred})
+							}
+						}
+					}
+					if want("subseq") {
+						for s := 0; s <= n; s++ {
+							out(&call{fn: "subseq", typs: string(t), seqs: []string{seq}, hasStart: true, start: s})
+							for e := s; e <= n; e++ {
+								out(&call{fn: "subseq", typs: string(t), seqs: []string{seq}, hasStart: true, start: s, subEnd: strconv.Itoa(e)})
+							}
+						}
+					}
+				}
+				if want("elt") {
+					for i := -1; i <= n+1; i++ {
+						out(&call{fn: "elt", typs: string(t), seqs: []string{seq}, hasStart: true, start: i})
+					}
+				}
+				if want("subseq") {
+					sub := func(s int, e string) {
+						out(&call{fn: "subseq", typs: string(t), seqs: []string{seq}, hasStart: true, start: s, subEnd: e})
+					}
+					sub(-1, "")
+					sub(n+1, "")
+					sub(n+1, "nil")
+					sub(n+1, strconv.Itoa(n+1))
+					for s := 0; s <= n; s++ {
+						sub(s, strconv.Itoa(n+1))
+						if 0 < s {
+							sub(s, strconv.Itoa(s-1))
+						}
+					}
+				}
+			}
+		}
+	}
+	if want("make-sequence") {
+		for _, rt := range []string{"list", "vector", "string"} {
+			for n := 0; n <= cf.subL; n++ {
+				for _, init := range []bool{true, false} {
+					out(&call{fn: "make-sequence", rtype: rt, hasStart: true, start: n, init: init})
+				}
+			}
+		}
+	}
+	// ---- merge: the two mixes of vector and string the older grid leaves out
+	if want("merge") {
+		for _, tp := range []string{"VS", "SV"} {
+			seqTuples(tp, cf.sortSAB, cf.sortSAB, cf.mergeL, func(typs string, seqs []string) {
+				for _, rt := range []string{"list", "vector", "string"} {
+					for _, pred := range []string{"lt", "gtp"} {
+						for _, key := range []bool{false, true} {
+							c := &call{fn: "merge", typs: typs, seqs: seqs, pred: pred, key: key, rtype: rt}
+							if c.valid() {
+								out(c)
+							}
+						}
+					}
+				}
+			})
 		}
 	}
 }
